@@ -497,8 +497,8 @@ pub fn gen(tier: &str, seed: u64, out: &mut dyn Write) {
     let thorough = tier == "thorough";
     // 1. exhaustive small space
     if thorough {
-        exhaustive(out, &dir, 3, 3, &[2], true);
-        exhaustive(out, &dir, 3, 1, &[1], true);
+        exhaustive(out, &dir, 3, 3, &[2], false);
+        exhaustive(out, &dir, 3, 2, &[1], true);
     } else {
         exhaustive(out, &dir, 3, 1, &[2], true);
         exhaustive(out, &dir, 2, 2, &[1], false);
